@@ -30,6 +30,42 @@ CHECKS = {
  "C17": ("exploration", "runtime monitoring: every split of a frame stream across the handshake boundary through the real Upgrader.Upgrade (fake Hijacker) and Dialer.Dial (scripted conn)",
          "For each generated stream every split between hijacked buffer and socket x 6 hijacked reader sizes x 6 ReadBufferSizes (server) and every cut of '101 + frames' (client) is executed; the messages read must equal the messages encoded.",
          "fake http.Hijacker over the scripted conn; streams sampled, splits exhaustive", "3/C17"),
+ "C07": ("exploration", "runtime monitoring: panic/process-death, read-after-exhaustion and watchdog hang detectors and a heap-allocation counter around four drivers fed by a structure-aware mutation generator; native Go coverage-guided fuzzing of the same drivers (thorough); ASan + checkptr replay",
+         "Seeded mutation of valid frame streams, server replies, proxy replies and header values (quick 288k inputs, thorough 2.9M + 4 x 1.5M fuzz executions); any panic, runtime fatal, sanitizer report, logical hang or allocation beyond 1 MiB + 16 x (received + delivered) is a violation.",
+         "allocation measured by runtime.MemStats.TotalAlloc; fuzzing is the one non-deterministic explorer (budgeted in executions)", "3/C07"),
+ "C09": ("exploration", "runtime monitoring: close sent at every step boundary of generated write programs through 7 paths, write log decoded (nothing after the close), API results checked; gated concurrent scenario with recorded call/return history checked by porcupine against a sequential model",
+         "Every close position x 7 close paths per generated program is executed; in the concurrent family the close frame is held inside the transport while other goroutines call the write API, then the history (each operation carrying the wire position of its frame) must be linearizable and nothing may follow the close frame.",
+         "schedules sampled; porcupine v1.3.0 as history checker", "3/C09"),
+ "C10": ("fault_enumeration", "runtime monitoring with fault injection at every transport operation index x {error, timeout, short write}; byte-exact prefix comparison with the fault-free run (replayed mask keys); deadline values used as identifiers in the transport log",
+         "For each generated program (with invalid requests and distinct deadlines) every SetWriteDeadline/Write index is faulted in three ways; written bytes must be a valid-frame prefix of the clean run, nothing is written afterwards, every later message-level call fails; invalid requests write nothing; every Write is preceded by the expected deadline.",
+         "mask keys replayed through VerifSetMaskRand; programs sampled, fault points exhaustive per program", "3/C10"),
+ "C11": ("exploration", "Go race detector + transport overlap/sequence monitors + independent decoding of both directions + porcupine history check under goroutine stress; gate scenario for WriteControl deadlines; shared PreparedMessage/pool scenario",
+         "W1/W2/W3 scenario families run in a plain and a -race build; zero race reports attributed to the library, no overlapping transport writes, contiguous well-formed frames, intact round trip, linearizable write-side history, WriteControl returning a timeout error (and leaving no frame) while the connection is held.",
+         "schedules sampled (thousands of short runs); the race detector sees only synchronisation it observes", "3/C11"),
+ "C12": ("exploration", "runtime monitoring: requests from a handshake grammar classified MUST_ACCEPT/MUST_REJECT/UNSPECIFIED by an independent classifier; Upgrade run on a Hijacker spy and through a real net/http server; strict independent parsing of the 101 (line accounting against injection, Accept digest)",
+         "Seeded exploration of the request grammar x Upgrader settings x hostile responseHeader values; accepted iff classified valid (UNSPECIFIED not judged), 101 strictly parsed with exact line count, refusals never hijack and carry 4xx/403/426.",
+         "classifier internal/props/c12.go; strict parser internal/httpx; SHA-1/base64 digest typed from the RFC", "3/C12"),
+ "C13": ("exploration", "runtime monitoring: (Host, Origin) pairs constructed so the expected verdict is known by construction, through direct Upgrade calls and a real net/http server (absolute-form targets for exotic hosts)",
+         "Origins are built from the Host by identity/case variation (must be upgraded) or by edits, label changes, port changes, userinfo/path/fragment tricks, Unicode look-alikes, different invalid bytes, junk (must get 403).",
+         "construction guarantees the expected answer; percent-encoded and scheme-less origins not generated", "3/C13"),
+ "C14": ("exploration", "runtime monitoring: Dial over a scripted conn; the request it writes is parsed by a strict independent parser; generated reply plans (stale/wrong Accept, status, token lists, bodies, malformed heads)",
+         "Seeded exploration of URLs with known expected request target, Dialer settings, caller headers and reply plans; request line/Host/protocol headers/key freshness judged from the wire; Dial must connect iff all four reply conditions hold for this request's key, otherwise ErrBadHandshake with status, headers and <=1024 body bytes.",
+         "strict parser internal/httpx; key distinctness checked per worker process", "3/C14"),
+ "C15": ("exploration", "runtime monitoring: real Dialer against real Upgrader over an in-memory transport with the wire watched for RSV1; raw extension offers against the Upgrader; scripted 101 replies against the Dialer; behavioural probes (does it send RSV1, does it accept a compressed frame)",
+         "All four EnableCompression pairs are connected and generated toggle/level/message sequences cross in both directions; announcement only if offered and enabled; compression in use iff the 101 carried both no_context_takeover parameters; endpoints agree.",
+         "behavioural probes instead of field inspection", "3/C15"),
+ "C16": ("fault_enumeration", "runtime monitoring with fault injection at every transport operation index x {error, timeout, EOF} during Dial (direct, CONNECT proxy, TLS, TLS through tunnel) and Upgrade; blocking peers under a 50 ms timeout; Close/deadline log of the scripted conn",
+         "Every operation of every configuration is faulted; failure => nil conn, error, transport closed (before hijack: untouched); success => open and no deadline armed; with a timeout configured every I/O operation runs under a deadline no later than it; a silent peer at each phase makes Dial return.",
+         "TLS peers in-process over an in-memory pipe; the TLS handshake inside the dial function is judged by the blocking form", "3/C16"),
+ "C18": ("exploration", "runtime monitoring: configuration matrix executed against in-process loopback backends, HTTP(S) CONNECT and SOCKS5 proxies that record requests, TLS state and connection provenance, and recording dial hooks",
+         "Thorough enumerates the whole matrix (proxy kind x scheme x 8 hook subsets x credentials x certificate x host form x refusal); quick a stride sample. Exactly one CONNECT with the right target/authorization, backend only through the proxy, WebSocket request only inside verified TLS for wss, no request to unverified peers, first hop by the applicable hook.",
+         "loopback TCP; in-process CA (ECDSA P-256)", "3/C18"),
+ "C19": ("exploration", "runtime monitoring: one PreparedMessage sent to generated sets of connections (role x negotiated x enabled x level), sequentially and from concurrent goroutines; each write log decoded independently and compared with the original payload and a WriteMessage twin",
+         "Seeded exploration of message type/size x connection sets x send/toggle/level/mutation sequences; decoded type, payload and compressed flag must match the settings at the time of the call and a twin WriteMessage.",
+         "frame boundaries not compared", "3/C19"),
+ "C20": ("exploration", "runtime monitoring: instrumented BufferPool (event log, identity, poison on Put, audit) checked after every API call against the open-writer state; transport faults at every operation index; many connections sharing one LIFO pool concurrently with every wire log decoded",
+         "Per connection the outstanding-buffer count must equal 1 exactly while a message is open and 0 otherwise after every call, Put must return the buffer taken, released buffers stay poisoned, and all sharing connections' streams stay well-formed.",
+         "VerifPoolBuf hook to open the pool value; schedules of the shared family sampled", "3/C20"),
 }
 
 PENDING_REASON = "monitor not built yet in this round (planned, see DESIGN.md section 9); no claim is made"
@@ -48,7 +84,7 @@ def main():
             "add_only": True,
         },
         "engines": [
-            {"name": "wsverif", "path": "cmd/wsverif", "serves_properties": sorted(CHECKS), "kind_free_text": "Go runner+worker binary: seeded case generation, child-process workers, monitors over scripted net.Conn / handler / pool / mask-source logs, independent RFC codec, evidence writer; built per variant (plain, race, asan, checkptr) from /repo's working tree on every invocation"},
+            {"name": "wsverif", "path": "cmd/wsverif", "serves_properties": sorted(CHECKS), "kind_free_text": "Go runner+worker binary (plus fuzz/ native Go fuzz targets for C07 thorough): seeded case generation, child-process workers, monitors over scripted net.Conn / handler / pool / mask-source logs, independent RFC codec, evidence writer; built per variant (plain, race, asan, checkptr) from /repo's working tree on every invocation"},
         ],
         "checks": [],
         "not_applicable": [],
